@@ -65,13 +65,16 @@ fn borrow_dump(tcx: &TypeContext) -> Value {
                 let r = catch_unwind(AssertUnwindSafe(|| {
                     let mut v = m.borrowing_param_visitor(tcx, force);
                     let mut infos = serde_json::Map::new();
+                    let mut smaps = serde_json::Map::new();
                     if let Some(s) = m.param_self.as_ref() {
                         let info = v.visit_param(&s.ty.clone().into(), "this");
                         infos.insert("this".into(), json!(info_name(&info)));
+                        if let Some(sm) = struct_map(&info, m) { smaps.insert("this".into(), sm); }
                     }
                     for p in &m.params {
                         let info = v.visit_param(&p.ty, p.name.as_str());
                         infos.insert(p.name.as_str().into(), json!(info_name(&info)));
+                        if let Some(sm) = struct_map(&info, m) { smaps.insert(p.name.as_str().into(), sm); }
                     }
                     let mut lts = serde_json::Map::new();
                     for (lt, info) in v.borrow_map() {
@@ -79,7 +82,7 @@ fn borrow_dump(tcx: &TypeContext) -> Value {
                         let edges: Vec<Value> = info.incoming_edges.iter().map(edge_json).collect();
                         lts.insert(name, json!(edges));
                     }
-                    json!({"edges": lts, "infos": infos})
+                    json!({"edges": lts, "infos": infos, "struct_maps": smaps})
                 }));
                 match r {
                     Ok(v) => {
@@ -95,6 +98,20 @@ fn borrow_dump(tcx: &TypeContext) -> Value {
         }
     }
     Value::Object(out)
+}
+
+/// StructBorrowInfo::borrowed_struct_lifetime_map as {struct-definition lifetime: [method lifetimes]}
+fn struct_map(i: &ParamBorrowInfo, m: &diplomat_core::hir::Method) -> Option<Value> {
+    if let ParamBorrowInfo::Struct(info) = i {
+        let mut o = serde_json::Map::new();
+        for (def_lt, set) in &info.borrowed_struct_lifetime_map {
+            let names: Vec<String> = set.iter().map(|l| m.lifetime_env.fmt_lifetime(*l).to_string()).collect();
+            o.insert(info.env.fmt_lifetime(*def_lt).to_string(), json!(names));
+        }
+        Some(Value::Object(o))
+    } else {
+        None
+    }
 }
 
 fn info_name(i: &ParamBorrowInfo) -> &'static str {
